@@ -1,4 +1,5 @@
 import BSEModel.Header
+import BSEProofs.Lemmas.Resplit
 /-! # C14 — the information header can never change or corrupt the payload -/
 namespace BSE.Props.C14
 open BSE.Header BSE.Gen.Writers
@@ -82,6 +83,20 @@ theorem headed_is_bare_plus_block (body h : Str) (cart : Bool) :
 /-- the comment markers contain no line boundary (so a marker never splits a line) -/
 theorem markers_have_no_break : ∀ e ∈ writerMap, ∀ c, e.2.1 = some c → c.toList ≠ [] ∧ c.toList.all (fun x => !isBreak x) = true := by
   decide
+
+/-- **every line of the header block, as a line-splitting reader sees it, is one of the header's own lines behind the
+comment marker** — for every format of the writer map (markers regenerated from `writers/write.py`), every header text
+(any Unicode line boundaries included) -/
+theorem header_lines_are_marked (e : String × Option String × Option (List String) × String) (he : e ∈ writerMap)
+    (c : String) (hc : e.2.1 = some c) (h : Str) (hne : h ≠ []) :
+    splitlinesKeep (commentBlock c.toList h) = (splitlinesKeep h).map (c.toList ++ ·)
+    ∧ ∀ l ∈ splitlinesKeep (commentBlock c.toList h), c.toList.isPrefixOf l = true := by
+  obtain ⟨hcne, hall⟩ := markers_have_no_break e he c hc
+  have hnb : NoBreak c.toList := by
+    intro x hx
+    have := List.all_eq_true.1 hall x hx
+    simpa using this
+  exact ⟨splitlines_commentBlock c.toList hnb hcne h hne, commentBlock_lines_marked c.toList hnb hcne h hne⟩
 
 example : splitlinesKeep "ab\ncd\r\ne f".toList = ["ab\n".toList, "cd\r\n".toList, "e ".toList, "f".toList] := by decide +kernel
 example : commentBlock ['!'] "a\nb\n".toList = "!a\n!b\n".toList := by decide +kernel
